@@ -22,7 +22,7 @@ Lemma rsum_steps src : starts_mono src -> forall n rs i outs st',
 Proof.
   intros [Hok Hmono]. induction n as [|n IH]; intros rs i outs st' Hb H.
   - cbn in H. inversion H; subst. cbn. now rewrite Nat.add_0_r.
-  - unfold tgt2 in Hb. cbn [steps m_rolling_sum step] in H.
+  - unfold tgt2 in Hb. rewrite steps_S in H. cbn [m_rolling_sum step] in H.
     assert (Hsi : (N.to_nat (at_ (sn src 1) i) <= i)%nat) by (apply Hok; lia).
     assert (Hge : start_at src i <= at_ (sn src 1) i).
     { destruct i; cbn [start_at]; [lia|]. apply Hmono; lia. }
@@ -260,7 +260,7 @@ Lemma monotonic_fs_steps sp src : forall n d i outs d',
 Proof.
   induction n as [|n IH]; intros d i outs d' H.
   - cbn in H. now inversion H.
-  - cbn [steps monotonic_fs step] in H. cbn [run_fs]. unfold upd_fs.
+  - rewrite steps_S in H. cbn [monotonic_fs step] in H. cbn [run_fs]. unfold upd_fs.
     destruct (pop_back_while sp (at_ (sn src 0) i) (pop_front_lt (at_ (sn src 1) i) d) ++ [(i, at_ (sn src 0) i)]) as [|[j v] t] eqn:Eu; [inversion H|].
     destruct (steps (monotonic_fs sp) src ((j, v) :: t) (S i) n) as [os r] eqn:E.
     inversion H; subst. eapply IH; eauto.
